@@ -263,7 +263,15 @@ func Check(p *lp.Program) string {
 			jw := jo.Dests[d][i]
 			jn, err := jsonref.ValidateLine(jw.Data)
 			if err != nil {
-				continue // the JSON build's own defect: C01's domain
+				// an unparseable line is C01's finding when both builds are wrong; when the binary build
+				// encodes the event fine, the two builds disagree about it, which is this property's subject
+				var bb bytes.Buffer
+				if derr := zerolog.VerifCbor2JsonManyObjects(bytes.NewReader(w.Data), &bb); derr == nil {
+					if _, berr := jsonref.ValidateLine(bb.Bytes()); berr == nil {
+						return fmt.Sprintf("event %d: the JSON build's line is not valid JSON (%v): %q, while the binary build's event decodes to %q", i, err, jw.Data, bb.Bytes())
+					}
+				}
+				continue
 			}
 			var buf bytes.Buffer
 			derr := zerolog.VerifCbor2JsonManyObjects(bytes.NewReader(w.Data), &buf)
